@@ -206,6 +206,7 @@ const (
 	fltAcceptTemp
 	fltNotReading
 	fltResetInFlight
+	fltSilentTLSPeer
 	fltKinds
 )
 
@@ -257,6 +258,10 @@ func H_C07_faults() {
 		// answers only after the bystander has come and been served
 		vConnFeed(c1, vWire(refEnvelope(77, refDeleteOp(), nil)))
 		vConnFeedErr(c1, "read: connection reset by peer")
+	case fltSilentTLSPeer:
+		// TLS listener, no timeouts: a peer connects and never sends its ClientHello
+		vConnSet(c1, "tlsPending", true)
+		vConnSet(c2, "tlsOK", true)
 	case fltNotReading:
 		// the client stops reading: its handler stays blocked inside Write
 		vConnSet(c1, "writeBlock", true)
@@ -269,7 +274,11 @@ func H_C07_faults() {
 	if fault == fltAcceptTemp {
 		vEnvAcceptTempErr()
 	}
-	v.goRun()
+	if fault == fltSilentTLSPeer {
+		v.goRun(WithTLSConfig(vTLSConfig()))
+	} else {
+		v.goRun()
+	}
 	vQuiesce()
 	vAssertE(vCrashed() == 0, "no goroutine dies with an unrecovered panic")
 	vAssertE(!v.ranRun, "Run keeps running after the fault")
@@ -297,7 +306,7 @@ func H_C07_faults() {
 		}
 	}
 	vAssertE(vConnClosed(c2) == 0, "the bystander connection stays open")
-	if fault != fltAcceptTemp && fault != fltHandlerPanic && fault != fltNotReading {
+	if fault != fltAcceptTemp && fault != fltHandlerPanic && fault != fltNotReading && fault != fltSilentTLSPeer {
 		vAssertE(vConnClosed(c1) == 1, "the faulty connection is closed")
 	}
 	if fault == fltHandlerPanic {
